@@ -2,6 +2,7 @@ package sim
 
 import (
 	"bytes"
+	"encoding/base64"
 	"encoding/json"
 	"fmt"
 	"sort"
@@ -33,6 +34,7 @@ type PlanResult struct {
 	OpDigests  []string              `json:"opDigests"`
 	Violations []Violation           `json:"violations,omitempty"`
 	Segments   map[string][][2]int64 `json:"segments,omitempty"` // group op id -> schedule taken
+	Writers    []string              `json:"writers,omitempty"`  // base64 bodies of requests after which the process-wide state fingerprint differed
 	Stats      PlanStats             `json:"stats"`
 	Plan       *Plan                 `json:"plan,omitempty"` // literal plan (with recorded schedules), attached when it violated
 }
@@ -118,7 +120,23 @@ func (x *planExec) execOp(op *Op) {
 		x.out.Stats.Faults["global-rand-reseed"]++
 	case "http", "lib":
 		x.setMapOrder(op)
+		probe := x.plan.Property == "C10" || x.plan.Property == "C09"
+		var before string
+		if probe {
+			before = w.StateFingerprint()
+		}
 		res := x.runRequest(w.mainTask, op)
+		if probe {
+			if after := w.StateFingerprint(); after != before {
+				// a probe, not a verdict (a later change may add a legitimately synchronised cache):
+				// under C10 the request is handed to the race half for confirmation
+				x.out.Stats.Probes["request-changed-process-wide-state"]++
+				x.out.Stats.Cells["state-writer:"+fingerprintDiff(before, after)]++
+				if len(x.out.Writers) < 4 && op.Kind == "http" {
+					x.out.Writers = append(x.out.Writers, base64.StdEncoding.EncodeToString(op.BodyBytes()))
+				}
+			}
+		}
 		x.finish(op, res)
 	case "group":
 		x.setMapOrder(op)
